@@ -390,20 +390,39 @@ func (f *Frame) callBySig(cs calleeSig, spec *FuncSpec, args []string, res *ssa.
 	for i, n := range cs.names {
 		params[n] = TV{args[i], cs.types[i]}
 	}
-	// free variables of a closure denote the captured variable's value at the call
+	// free variables of a closure denote the captured variable: its value in
+	// the state a clause is evaluated in (inside old(): its value before the call)
+	type fvCell struct {
+		ref string
+		ty  types.Type
+	}
+	fvCells := map[string]fvCell{}
 	if callee != nil {
 		for i, fv := range callee.FreeVars {
 			j := len(callee.Params) + i
 			if j < len(args) {
 				if pt, _ := fv.Type().Underlying().(*types.Pointer); pt != nil {
-					params[fv.Name()] = TV{f.loadPtr(pre, args[j], pt.Elem()), pt.Elem()}
+					fvCells[fv.Name()] = fvCell{args[j], pt.Elem()}
 				}
 			}
 		}
 	}
 	mkEnv := func(cur, old *State) *TEnv {
 		env := &TEnv{vc: vc, f: f, pkg: cs.pkg, vars: map[string]TV{}, cur: stateHeap{f, cur}, old: stateHeap{f, old}}
-		env.lookup = func(name string) (TV, bool) { tv, ok := params[name]; return tv, ok }
+		env.lookup = func(name string) (TV, bool) {
+			if c, ok := fvCells[name]; ok {
+				return TV{f.loadPtr(cur, c.ref, c.ty), c.ty}, true
+			}
+			tv, ok := params[name]
+			return tv, ok
+		}
+		env.lookupOld = func(name string) (TV, bool) {
+			if c, ok := fvCells[name]; ok {
+				return TV{f.loadPtr(old, c.ref, c.ty), c.ty}, true
+			}
+			tv, ok := params[name]
+			return tv, ok
+		}
 		env.allocOld = f.get(old, vc.allocKey())
 		return env
 	}
